@@ -1,4 +1,5 @@
 import FinamModel.DriverUtil
+import FinamModel.DriverMeta
 import FinamModel.Output
 /-! Line-protocol handlers: one JSON object in, one JSON object out. -/
 namespace Finam.Driver
@@ -27,6 +28,7 @@ def handleC09 (j : Json) : Json :=
     ("pre", Json.bool (preAllB s0 evs))]
 
 def handlers : List (String × (Json → Json)) := [
+  ("c19", C19.handle),
   ("c09", handleC09)
 ]
 
